@@ -50,6 +50,30 @@ HistoriesEnabled(n) ==
   {[key |-> KeyOf(n), chain |-> [i \in 1..len |-> Entry(n, i, i = dmAt, lad[i], p)]] :
    len \in 4..5, lad \in Ladders, dmAt \in {0, 2, 5}, p \in 1..3}
 
+\* Populations whose LastModified is NOT monotone with succession.  The reconciler
+\* is a middleware over any storage.Storage; a backend may report a LastModified
+\* that was bumped after a newer version had been written (metadata update), or
+\* equal timestamps.  created stays the true creation time (the property), mtime
+\* is what the listing reports (>= created); the listing order stays succession.
+\* One or two of the older noncurrent versions are bumped: to the creation time
+\* of a newer version (equal timestamps), to just before / after the current
+\* version's creation, or far later; with two bumps the older one gets the
+\* newer LastModified (fully inverted).
+BumpBases(n) ==
+  {[i \in 1..len |-> Entry(n, i, i = dmAt, lad[i], p)] :
+   len \in 3..5, lad \in Ladders, dmAt \in {0, 2}, p \in {1, 3}}
+BumpTimes(ch) ==
+  {ch[j].created : j \in 2..Len(ch)} \cup
+  {Last(ch).created - 700, Last(ch).created - 1, Last(ch).created + 1, T(3, 5), T(4, 630)}
+HistoriesBumped(n) ==
+  {[key |-> KeyOf(n), chain |-> [ch EXCEPT ![i].mtime = b]] :
+   <<ch, i, b>> \in {<<ch, i, b>> \in BumpBases(n) \X (1..3) \X (UNION {BumpTimes(c) : c \in BumpBases(n)}) :
+                     i < Len(ch) /\ ~ch[i].dm /\ b \in BumpTimes(ch) /\ b >= ch[i + 1].created}}
+  \cup
+  {[key |-> KeyOf(n), chain |-> [ch EXCEPT ![1].mtime = b + d, ![2].mtime = b]] :
+   <<ch, b, d>> \in {<<ch, b, d>> \in BumpBases(n) \X (UNION {BumpTimes(c) : c \in BumpBases(n)}) \X {0, 7} :
+                     Len(ch) >= 4 /\ ~ch[1].dm /\ ~ch[2].dm /\ b \in BumpTimes(ch) /\ b > ch[3].created}}
+
 Histories(ver, n) == IF ver = "Unversioned" THEN HistoriesUnversioned(n) ELSE HistoriesEnabled(n)
 
 \* rule shapes -----------------------------------------------------------
@@ -143,6 +167,7 @@ Probes == {[ver |-> v, same |-> s, op |-> o] :
 Components ==
   UNION {{[kind |-> "hist", ver |-> v, n |-> n, h |-> h] : h \in Histories(v, n)} :
          v \in {"Unversioned", "Enabled"}, n \in 1..2}
+  \cup UNION {{[kind |-> "bumped", ver |-> "Enabled", n |-> n, h |-> h] : h \in HistoriesBumped(n)} : n \in 1..2}
   \cup {[kind |-> "rule", rule |-> r] : r \in RuleShapes}
   \cup {[kind |-> "clock", now |-> c] : c \in ClocksA}
   \cup {[kind |-> "ups", ups |-> u] : u \in UploadSets}
